@@ -8,6 +8,9 @@ import re
 from astq import INT_TYPES, NotConst, attr_directives, eval_int, has_attr
 from mirq import Undecidable, callee, is_tracing
 
+CORE_HELPERS = ("binrw_parse_codepage_string", "binrw_write_codepage_string", "binrw_parse_codepage_string_until_eof",
+                "binrw_parse_duration", "binrw_write_duration")
+
 KNOWN_FIELD_KEYS = {
     "pad_before", "pad_after", "align_before", "align_after", "pad_size_to", "magic", "parse_with", "write_with",
     "args", "map", "try_map", "count", "calc", "temp", "ignore", "default", "if", "try", "assert", "restore_position",
@@ -320,6 +323,29 @@ class Wire:
         segs = path_expr["segs"]
         name = segs[-1]["id"]
         gens = segs[-1].get("generics") or []
+        wrapper = None
+        argv = None
+        if name not in CORE_HELPERS:
+            # a private wrapper whose whole body is one call of a core helper (`fn parse_name() { core_helper::<N, _>(reader, endian, (false,)) }`)
+            fns = self.ast.free_fn(name)
+            if len(fns) == 1:
+                body = fns[0][3].get("body")
+                if isinstance(body, dict) and body.get("k") == "Block":
+                    body = body["stmts"]
+                if isinstance(body, list) and len(body) == 1 and body[0].get("k") == "Expr":
+                    e = body[0]["e"]
+                    if e.get("k") == "Call" and e["func"].get("k") == "Path" and e["func"]["segs"][-1]["id"] in CORE_HELPERS and e["args"]:
+                        wrapper = name
+                        name = e["func"]["segs"][-1]["id"]
+                        gens = e["func"]["segs"][-1].get("generics") or []
+                        last = e["args"][-1]
+                        if last.get("k") == "Tuple":
+                            argv = []
+                            for a in last["elems"]:
+                                v = self.const_int(a)
+                                if v is None and a.get("k") == "Lit" and a.get("t") == "bool":
+                                    v = a["v"] in (True, "true")
+                                argv.append(v if v is not None else (a.get("path") or a.get("text") or "?"))
         out = []
         for g in gens:
             if g == "_":
@@ -332,7 +358,11 @@ class Wire:
                     if v.get("k") == "Lit" and v.get("t") == "int":
                         g = str(int(v["v"]))
             out.append(g)
-        return {"name": name, "generics": out}
+        r = {"name": name, "generics": out}
+        if wrapper:
+            r["wrapper"] = wrapper
+            r["argv"] = argv
+        return r
 
     def helper_body_segs(self, fname, side, where):
         """segments produced/consumed by a workspace helper fn, via MIR events of its body"""
@@ -497,6 +527,8 @@ class Wire:
                 return [Seg(name="", w=None, cls="undecidable")]
             args = ds.get("args")
             argv = []
+            if args is None and h.get("argv") is not None:
+                argv = list(h["argv"])
             if args is not None and args.get("args") is not None:
                 for a in args["args"]:
                     v = self.const_int(a)
